@@ -18,6 +18,8 @@ N6  a = <access path>; ... a ...  ->  ... <access path> ...   (single definition
                                       written in between)
 N7  t = <expr>; S(t)             ->  S(<expr>)               (t used once, in the very next statement, nothing with
                                       an effect evaluated before it)
+N10 helper(args) as a statement, helper a short loop-free statement sequence of this module that returns nothing
+                                 ->  its statements with the arguments substituted and its locals renamed
 N8  list(reversed(x)) -> x[::-1];  sorted(d.keys()) / for k in d.keys() / k in d.keys()  ->  without .keys()
 """
 import ast
@@ -332,7 +334,102 @@ def _expr_helpers(tree):
                 # not recursive
                 if any(isinstance(n, ast.Name) and n.id == st.name for n in ast.walk(e)):
                     continue
-                out[st.name] = st
+                out[st.name] = (st, copy.deepcopy(e))      # the expression as written, before any rewrite
+    return out
+
+
+def _stmt_helpers(tree, external):
+    """Module-level functions that are plain statement sequences (no value returned, no loop, not recursive),
+    called only directly and only inside this module: N10 inlines them at their call statements."""
+    out = {}
+    refs = {}
+    calls = {}
+    for n in ast.walk(tree):
+        if isinstance(n, ast.Name):
+            refs[n.id] = refs.get(n.id, 0) + 1
+        if isinstance(n, ast.Call) and isinstance(n.func, ast.Name):
+            calls[n.func.id] = calls.get(n.func.id, 0) + 1
+    for st in tree.body:
+        if not isinstance(st, ast.FunctionDef) or st.name in external or st.decorator_list:
+            continue
+        a = st.args
+        if a.vararg or a.kwarg or a.kwonlyargs or a.defaults or a.posonlyargs:
+            continue
+        body = [x for x in st.body if not (isinstance(x, ast.Expr) and isinstance(x.value, ast.Constant))]
+        if not body or len(body) > 8:
+            continue
+        bad = False
+        for x in ast.walk(st):
+            if isinstance(x, (ast.Yield, ast.YieldFrom, ast.Await, ast.For, ast.While, ast.Try, ast.With, ast.Global,
+                              ast.Nonlocal, ast.Lambda, ast.ListComp, ast.DictComp, ast.SetComp, ast.GeneratorExp)):
+                bad = True
+            if isinstance(x, ast.Return):
+                bad = True
+            if isinstance(x, (ast.FunctionDef, ast.ClassDef)) and x is not st:
+                bad = True
+            if isinstance(x, ast.Name) and x.id == st.name:
+                bad = True
+        if bad:
+            continue
+        if calls.get(st.name, 0) == 0 or refs.get(st.name, 0) != calls.get(st.name, 0):
+            continue
+        out[st.name] = (st, copy.deepcopy(body))
+    return out
+
+
+def _n10_inline_stmt(st, helpers, caller_locals):
+    if not (isinstance(st, ast.Expr) and isinstance(st.value, ast.Call) and isinstance(st.value.func, ast.Name)):
+        return None
+    c = st.value
+    if c.func.id not in helpers or c.func.id in caller_locals:
+        return None
+    h, body = helpers[c.func.id]
+    params = [a.arg for a in h.args.args]
+    if c.keywords or len(c.args) != len(params) or any(isinstance(a, ast.Starred) for a in c.args):
+        return None
+    assigned = set()
+    for s in body:
+        for x in ast.walk(s):
+            if isinstance(x, ast.Name) and isinstance(x.ctx, (ast.Store, ast.Del)):
+                assigned.add(x.id)
+    if assigned & set(params):
+        return None               # the helper re-binds a parameter: substitution would change the caller's variable
+    counts = dict((p_, 0) for p_ in params)
+    free = set()
+    for s in body:
+        for x in ast.walk(s):
+            if isinstance(x, ast.Name):
+                if x.id in counts:
+                    counts[x.id] += 1
+                elif x.id not in assigned:
+                    free.add(x.id)
+    if free & caller_locals:
+        return None               # a module-level name of the helper is shadowed in the caller
+    pre = []
+    mapping = {}
+    for p_, a in zip(params, c.args):
+        if _is_path(a) or isinstance(a, ast.Constant) or _simple_default(a):
+            mapping[p_] = a
+        else:
+            tmp = '%s__%s' % (p_, c.func.id)
+            pre.append(_assign(ast.Name(id=tmp, ctx=ast.Store()), a, st))
+            mapping[p_] = ast.Name(id=tmp, ctx=ast.Load())
+    ren = dict((nm, '%s__%s' % (nm, c.func.id)) for nm in assigned)
+
+    class _Ren(ast.NodeTransformer):
+        def visit_Name(self, n):
+            if n.id in ren:
+                return ast.copy_location(ast.Name(id=ren[n.id], ctx=n.ctx), n)
+            return n
+    out = list(pre)
+    for s in body:
+        s2 = _Ren().visit(copy.deepcopy(s))
+        s2 = _Subst(mapping).visit(s2)
+        for x in ast.walk(s2):
+            if hasattr(x, 'lineno'):
+                x.lineno = st.lineno
+                x.end_lineno = getattr(st, 'end_lineno', st.lineno)
+        out.append(s2)
     return out
 
 
@@ -347,12 +444,10 @@ class _Inline(ast.NodeTransformer):
         f = n.func
         if not (isinstance(f, ast.Name) and f.id in self.helpers and f.id not in self.locals):
             return n
-        h = self.helpers[f.id]
+        h, e = self.helpers[f.id]
         params = [a.arg for a in h.args.args]
         if n.keywords or len(n.args) != len(params) or any(isinstance(a, ast.Starred) for a in n.args):
             return n
-        body = [s for s in h.body if not (isinstance(s, ast.Expr) and isinstance(s.value, ast.Constant))]
-        e = body[0].value
         bound = set()
         for x in ast.walk(e):
             if isinstance(x, ast.comprehension):
@@ -603,7 +698,7 @@ def _locals_of(func):
 def normalise(tree, ctx=None, mname='', aliases=None, enabled=None):
     """Rewrite `tree` (an ast.Module) in place and return (tree, {rewrite: count})."""
     on = (lambda k: enabled is None or k in enabled)
-    ctx = ctx or {'pure': set(), 'rebound': set()}
+    ctx = ctx or {'pure': set(), 'rebound': set(), 'external': set()}
     aliases = aliases or {}
     stats = {}
 
@@ -612,9 +707,15 @@ def normalise(tree, ctx=None, mname='', aliases=None, enabled=None):
     if on('N8'):
         _ExprCanon().visit(tree)
     helpers = _expr_helpers(tree) if on('N5') else {}
+    shelpers = _stmt_helpers(tree, ctx.get('external', set())) if on('N10') else {}
     for func in _functions(tree):
         for _round in range(6):
             changed = False
+            if shelpers and func.name not in shelpers:
+                loc_ = _locals_of(func)
+                if _block_rewrite(func, lambda s_: _n10_inline_stmt(s_, shelpers, loc_)):
+                    bump('N10')
+                    changed = True
             if helpers and func.name not in helpers:
                 inl = _Inline(helpers, _locals_of(func))
                 inl.visit(func)
@@ -803,4 +904,20 @@ def package_context(mods):
             if any(c not in pure for c in callees[key]):
                 pure.discard(key)
                 changed = True
-    return {'pure': pure, 'rebound': rebound}
+    external = set()
+    for mname, (tree, aliases, classes) in mods.items():
+        for n in ast.walk(tree):
+            if isinstance(n, ast.Attribute) and isinstance(n.value, ast.Name) and n.value.id in aliases:
+                external.add(n.attr)
+            if isinstance(n, ast.Call) and isinstance(n.func, ast.Name) and n.func.id in ('getattr', 'globals'):
+                external.add('*dynamic*')
+    # modules whose functions are looked up by name at run time keep all their functions addressable
+    dynamic = set()
+    for mname, (tree, aliases, classes) in mods.items():
+        for n in ast.walk(tree):
+            if isinstance(n, ast.Call) and isinstance(n.func, ast.Name) and n.func.id == 'getattr' and n.args \
+                    and isinstance(n.args[0], ast.Name) and n.args[0].id in aliases:
+                dynamic.add(aliases[n.args[0].id])
+            if isinstance(n, ast.Call) and isinstance(n.func, ast.Name) and n.func.id == 'globals':
+                dynamic.add(mname)
+    return {'pure': pure, 'rebound': rebound, 'external': external, 'dynamic': dynamic}
